@@ -126,10 +126,70 @@ def judge(res):
 # running cases (process pool; real time is involved: a run that does not finish is re-run before it is reported)
 
 
+def judge_explore(res):
+    """the property on the real objects after an explorer case (public behaviour only; nothing here depends on a name inside
+    aiortc: tasks / threads / sockets are judged as "created since the pair was built and still there")"""
+    if res.get("void"):
+        return None
+    bad = []
+    closes = res["closes"]
+    for c in closes:
+        who = f"close() #{c['label']} on peer {c['peer']}"
+        if c["exc"] == "timeout":
+            bad.append(f"{who} did not complete")
+        elif c["exc"]:
+            bad.append(f"{who} raised {c['exc']}")
+        else:
+            s = c["snap"]
+            if (s["signaling"], s["ice"], s["conn"]) != ("closed", "closed", "closed"):
+                bad.append(f"{who} returned with states signaling={s['signaling']} ice={s['ice']} connection={s['conn']}")
+            if any(x != "closed" for x in s["channels"]):
+                bad.append(f"{who} returned with data channels {s['channels']}")
+            if not res.get("broken") and (s["live_tasks"] or s["other_tasks"] or s["threads"]):
+                bad.append(f"{who} returned while tasks/threads of the connection are still running: "
+                           f"{','.join(s['live_tasks'] + s['other_tasks'] + s['threads'])}")
+    for p, f in enumerate(res["final"]):
+        who = f"peer {p} after close()"
+        if not f["returned"]:
+            bad.append(f"peer {p}: close() never returned")
+        if (f["signaling"], f["ice"], f["conn"]) != ("closed", "closed", "closed"):
+            bad.append(f"{who}: states signaling={f['signaling']} ice={f['ice']} connection={f['conn']}")
+        if any(x != "closed" for x in f["channels"]):
+            bad.append(f"{who}: data channels {f['channels']}")
+        if not all(f["tracks_ended"]):
+            bad.append(f"{who}: a received track never ends (recv() blocks)")
+        if f["events_after_close"]:
+            bad.append(f"{who}: events fired: {','.join(f['events_after_close'])}")
+        if f["reclose"] != "ok":
+            bad.append(f"{who}: a further close() " + ("never returns" if f["reclose"] == "timeout" else "raised " + f["reclose"]))
+        elif f["reclose_changed"] or f["reclose_iters"] > 2:
+            bad.append(f"{who}: a further close() is not a no-op (changed={f['reclose_changed']}, {f['reclose_iters']} iterations)")
+    if res["left_tasks"]:
+        bad.append("tasks still running after both connections were closed: " + ",".join(res["left_tasks"]))
+    if res["left_threads"]:
+        bad.append("threads still alive: " + ",".join(res["left_threads"]))
+    if res["left_timers"]:
+        bad.append("timers still armed: " + ",".join(res["left_timers"]))
+    if res["left_sockets"]:
+        bad.append(f"{res['left_sockets']} sockets still open")
+    if res.get("call_exc") not in (None, "InvalidStateError"):
+        bad.append(f"the interrupted call raised {res['call_exc']}")
+    bad.extend(res["notes"])
+    return "; ".join(bad[:4]) if bad else None
+
+
+def judge_any(case, res):
+    return judge_explore(res) if case.get("x") else judge(res)
+
+
 def _run(case):
-    from harness import close_world
     try:
-        res = close_world.run_case(case)
+        if case.get("x"):
+            from harness import close_explore
+            res = close_explore.run_explore(case)
+        else:
+            from harness import close_world
+            res = close_world.run_case(case)
     except Exception as exc:  # noqa: BLE001
         return {"harness_exc": type(exc).__name__ + ": " + str(exc)[:300]}
     return res
@@ -140,14 +200,14 @@ def _pool_run(case):
     if "harness_exc" in res:
         res = _run(case)
         return res
-    why = judge(res)
+    why = judge_any(case, res)
     if why:
-        # re-run twice: only a failure that shows up again is reported (timing noise of a loaded machine)
-        for _ in range(2):
+        # re-run (twice; explorer cases once): only a failure that shows up again is reported (timing noise of a loaded machine)
+        for _ in range(1 if case.get("x") else 2):
             res2 = _run(case)
             if "harness_exc" in res2:
                 continue
-            if judge(res2) is None:
+            if judge_any(case, res2) is None:
                 return res2
             res = res2
     return res
@@ -163,7 +223,10 @@ def _warm():
     """import everything and freeze the heap before forking (the first run in a fresh process costs seconds otherwise)"""
     import gc
     from harness import close_world
-    close_world.run_case({"cfg": "audio+video+dc", "flow": True, "closers": [{"peer": 0}], "settle_ms": 100})
+    # (no media flowing here: a codec / executor thread of the parent that holds a lock of libav at the moment of the fork
+    # leaves the children dead-locked in their first decode())
+    close_world.run_case({"cfg": "audio+video+dc", "flow": False, "closers": [{"peer": 0}], "settle_ms": 100})
+    import aiortc.codecs  # noqa: F401
     gc.freeze()
 
 
@@ -266,7 +329,8 @@ class Shutdown(Component):
         else:
             _warm()
             # heavy cases first, so that the pool drains evenly
-            order = sorted(range(len(todo)), key=lambda i: -(("video" in todo[i]["cfg"]) * 2 + bool(todo[i].get("flow"))))
+            order = sorted(range(len(todo)), key=lambda i: -(("video" in str(todo[i].get("cfg", todo[i].get("media")))) * 2
+                                                               + bool(todo[i].get("flow"))))
             with mp.get_context("fork").Pool(nproc, initializer=_quiet_worker) as pool:
                 res = pool.map(_pool_run, [todo[i] for i in order], chunksize=1)
             results = [None] * len(todo)
@@ -299,10 +363,14 @@ class Shutdown(Component):
 
     def model_line(self, case):
         r = self._get(case)
+        if r.get("void"):
+            return None
+        if r.get("broken"):
+            return "close broken " + r["broken"].replace(" ", "_")
         return "close run " + "|".join(";".join(t) or "-" for t in r["trace"])
 
     def oracle(self, case, impl_out):
-        return judge(self._get(case))
+        return judge_any(case, self._get(case))
 
     def label(self, case, impl_out):
         r = self._get(case)
@@ -334,8 +402,100 @@ class Shutdown(Component):
             yield dict(case, cfg="dc")
 
 
+EX_MEDIA = [["audio", "video"], ["audio", "video", "dc"], ["dc", "audio", "video"], ["audio", "dc"], ["dc"]]
+EX_KMAX = {"setLocal": 3, "setRemote": 7, "trxStop": 4}
+
+
+class Explore(Shutdown):
+    """systematic interleavings: close() after a negotiation call has passed k suspension points (harness/close_explore.py)"""
+    name = "interleave"
+    theorems = ["close_terminates", "no_stuck", "after_close", "close_stops_all_transports_present_at_snapshot",
+                "cleanup_stops_what_it_discards", "final_transports", "live_set_iteration_can_crash"]
+
+    def corpus(self):
+        return [
+            # seeded C19-r2-close-iterates-transport-sets: close() walking the transport *sets* while setRemoteDescription(answer)
+            # discards the bundled-away transport from them
+            {"x": 1, "policy": "balanced", "media": ["audio", "video"], "bundle": True, "call": [0, "setRemote", 0], "k": 0,
+             "closer": "same"},
+            {"x": 1, "policy": "balanced", "media": ["audio", "video", "dc"], "bundle": True, "call": [0, "setRemote", 0], "k": 1,
+             "closer": "same2"},
+            # transceiver.stop() by the application racing close()
+            {"x": 1, "policy": "max-bundle", "media": ["dc", "audio", "video"], "bundle": True, "call": [0, "trxStop", 0], "k": 1,
+             "closer": "same"},
+        ]
+
+    def cases(self, rng, tier):
+        from harness import close_explore as X
+        quick = tier == "quick"
+        out = []
+        # (1) systematic core: the calls that mutate the transport sets, every k, on the configurations with teardown work
+        core_cfgs = [("balanced", ["audio", "video"], True), ("balanced", ["audio", "video", "dc"], True),
+                     ("max-compat", ["audio", "video", "dc"], True), ("max-bundle", ["dc", "audio", "video"], True)]
+        if not quick:
+            core_cfgs = [(p, m, b) for p in X.POLICIES for m in EX_MEDIA for b in (True, False)]
+        for (pol, media, bundle) in core_cfgs:
+            for desc in ([0, "setRemote", 0], [1, "setRemote", 0], [0, "setLocal", 0], [1, "setLocal", 0]):
+                for k in range(0, EX_KMAX[desc[1]] + 1 if not quick else min(5, EX_KMAX[desc[1]] + 1)):
+                    closers = ["same"] if quick and k > 1 else (["same", "same2"] if quick else list(X.CLOSERS))
+                    for cl in closers:
+                        out.append({"x": 1, "policy": pol, "media": media, "bundle": bundle, "call": desc, "k": k, "closer": cl})
+        # (2) every call of the script x k x closer, sampled
+        n = 40 if quick else 1200
+        for i in range(n):
+            pol = rng.choice(X.POLICIES)
+            media = rng.choice(EX_MEDIA)
+            cfg = {"policy": pol, "media": media, "bundle": rng.random() < 0.7}
+            calls = X.all_calls(cfg)
+            # after-connected calls cost seconds (the pair has to connect first): a few of them in the quick tier
+            first_late = next((j for j, c in enumerate(calls) if c[1] == "trxStop" or (c[1] == "add:dc" and c[0] == 0 and c[2] > 0)
+                               or (c[1] == "add:dc" and "dc" not in media)), len(calls))
+            late = rng.random() < (0.15 if quick else 0.4)
+            pool_ = calls[first_late:] if late and first_late < len(calls) else calls[:first_late]
+            desc = rng.choice(pool_)
+            kmax = EX_KMAX.get(desc[1], 1)
+            out.append(dict(cfg, x=1, call=desc, k=rng.randrange(0, kmax + 1), closer=rng.choice(X.CLOSERS)))
+        # de-duplicate
+        seen = set()
+        uniq = []
+        for c in out:
+            key = case_key(c)
+            if key not in seen:
+                seen.add(key)
+                uniq.append(c)
+        self._batch = list(self.corpus()) + uniq
+        return uniq
+
+    def label(self, case, impl_out):
+        r = self._get(case)
+        if r.get("void"):
+            return "void:" + r["void"].split(" raised")[0][:30]
+        fired = r.get("fired") or [0, True]
+        when = "end" if fired[1] else "k%d" % (fired[0] - 1)
+        return f"{case['policy']}:{case['call'][1]}@{case['call'][0]}:{when}:{case['closer']}"
+
+    def nontrivial(self, case, impl_out):
+        r = self._get(case)
+        return not r.get("void")
+
+    def shrink(self, case):
+        # minimal (configuration, call, k): fewer suspension points first, then one closer, then a smaller configuration
+        for k in range(0, case["k"]):
+            yield dict(case, k=k)
+        if case["closer"] != "same":
+            yield dict(case, closer="same")
+        media = case["media"]
+        for i in range(len(media)):
+            if len(media) > 1:
+                yield dict(case, media=media[:i] + media[i + 1:])
+        if case["policy"] != "balanced":
+            yield dict(case, policy="balanced")
+        if not case.get("bundle", True):
+            yield dict(case, bundle=True)
+
+
 def components(tier):
-    return [Shutdown()]
+    return [Shutdown(), Explore()]
 
 
 def classify_finding(finding, comp_name, case, what):
